@@ -36,7 +36,7 @@ class C07(Prop):
     anchors = ["aioswitcher.bridge:SwitcherBridge.start", "aioswitcher.bridge:UdpClientProtocol.datagram_received",
                "aioswitcher.bridge:_parse_device_from_datagram"]
     min_evaluations = {"quick": 80_000, "thorough": 800_000}
-    budget_s = {"quick": 60, "thorough": 900}
+    budget_s = {"quick": 300, "thorough": 900}
 
     def selftest(self):
         broadcast_captures()
